@@ -68,6 +68,13 @@ def examine(case):
                 break          # veterans' hurdles: scored as 110H / 100H by the forward function, no row for the inverse
             kw = {} if age is None else {'age': age}
             r2 = call(athlib.athlon_score, g, e, 12.5, **kw)
+            if r2 == ('ret', None):
+                # ... whatever stands in the mark field of the results sheet for a pair the table does not know
+                for mk in ('DQ', 'NM', '', 'DNF', '12.5', None, 0):
+                    r3 = call(athlib.athlon_score, g, e, mk, **kw)
+                    if r3 != ('ret', None):
+                        r2 = r3
+                        break
             if r2 != ('ret', None):
                 out.append(V('unknown-pair-gives-none', ['unknown', 'score', r2[1] if r2[0] == 'exc' else 'value',
                                                          'age' if kw else 'noage'], dict(case, age=age), r2, None))
